@@ -150,7 +150,7 @@ def gen_call(r, cfg, m, rule):
     return {"mode": "request-dict" if dict_mode else "request-instance", "fields": fields}
 
 
-def gen_cfg(r, listed=None, transport=None, add_iam=None, own=None, mixed=False, t3=True, iam_rules=None):
+def gen_cfg(r, listed=None, transport=None, add_iam=None, own=None, mixed=False, t3=True, iam_rules=None, layout=None):
     cfg = {"t3": t3}
     if listed is None:
         listed = [a for a in (OPS, IAM, LOC) if r.maybe(0.65)]
@@ -205,25 +205,106 @@ def gen_cfg(r, listed=None, transport=None, add_iam=None, own=None, mixed=False,
     order = list(ALL_METHODS)
     r.shuffle(order)
     cfg["order"] = order                                              # order of the second round of calls
+    apply_layout(r, cfg, layout)                                      # (drawn last: the fields above do not depend on it)
     return cfg
+
+
+# ---- where the files of the API live: the API package `acme.lib.v1` itself or a proto sub-package of it.  A service declared in
+# a sub-package is rendered by the generator with `api` = that sub-package's VIEW of the API (Generator._render_template,
+# `dataclasses.replace(api, subpackage_view=...)`), so everything the mixin templates read off `api` is read off the view.
+SUBS = ["stacks", "keepers", "stacks.east"]
+LAYOUTS = ["flat"] * 11 + ["allsub"] * 3 + ["split"] * 3 + ["msgsub"] * 3      # 45 % of the generated APIs have a sub-package
+
+
+def apply_layout(r, cfg, layout=None):
+    """flat   : one file in the API package (services and messages);
+       allsub : every service in ONE sub-package, only the messages in the API package;
+       split  : one service in the API package and one in a sub-package (messages next to either of them); in 30 % of these
+                each service in a sub-package of its own — siblings or parent and child — with the messages in the API package;
+       msgsub : the service(s) in the API package, their request/response messages in a sub-package."""
+    lay = layout or r.pick(LAYOUTS)
+    sub = r.pick(SUBS)
+    second = bool(cfg["own"]) and cfg["own_service"] == "Admin"
+    if lay == "flat":
+        return cfg                                                    # (no new keys: the corpus files of earlier rounds are flat)
+    if lay == "allsub":
+        second = second or r.maybe(0.5)
+        subs = {"Library": sub, "Admin": sub, "msgs": ""}
+    elif lay == "split":
+        second = True
+        insub = r.pick(["Library", "Admin"])
+        subs = {"Library": sub if insub == "Library" else "", "Admin": sub if insub == "Admin" else "", "msgs": r.pick(["", sub])}
+        if r.maybe(0.3):      # each service in a sub-package of its own (siblings, or parent and child); a file of messages keeps the API package
+            a, b = r.pick([("stacks", "keepers"), ("stacks", "stacks.east"), ("stacks.east", "stacks"), ("keepers", "stacks.east")])
+            subs = {"Library": a, "Admin": b, "msgs": ""}
+    else:
+        second = second or r.maybe(0.3)
+        subs = {"Library": "", "Admin": "", "msgs": sub}
+    cfg.update(layout=lay, subs=subs, second=second, target=r.pick(["Library", "Admin"]) if second else "Library")
+    return cfg
+
+
+def cfg_subs(cfg):
+    d = {"Library": "", "Admin": "", "msgs": ""}
+    d.update(cfg.get("subs") or {})
+    return d
+
+
+def pkg_of(cfg, who):
+    """proto package of the file declaring service `who` (or the messages, who="msgs")"""
+    sub = cfg_subs(cfg)[who]
+    return PKG + ("." + sub if sub else "")
+
+
+def has_second(cfg):
+    return bool(cfg.get("second")) or (cfg.get("own_service") == "Admin" and bool(cfg.get("own")))
+
+
+def services_of(cfg):
+    return ["Library"] + (["Admin"] if has_second(cfg) else [])
+
+
+def target_of(cfg):
+    return cfg.get("target") or "Library"
+
+
+def sub_tuple(cfg, who):
+    s = cfg_subs(cfg)[who]
+    return s.split(".") if s else []
 
 
 # ---------------------------------------------------------------------------------------- observation (real code)
 
 def build_files(cfg):
-    f = apigen.File("acme/lib/v1/lib.proto", PKG)
-    f.dep("google/iam/v1/iam_policy.proto", "google/iam/v1/policy.proto")
-    book = f.msg("Book"); book.field("name"); book.field("title")
-    rq = f.msg("GetBookRequest"); rq.field("name")
-    svcs = {"Library": f.service("Library")}
-    svcs["Library"].method("GetBook", rq, book, http=("get", "/v1/{name=books/*}"))
-    if cfg.get("own_service") == "Admin" and cfg.get("own"):
-        svcs["Admin"] = f.service("Admin", host="admin.example.com")
-        svcs["Admin"].method("PingBook", rq, book, http=("get", "/v1/{name=books/*}:ping"))
+    """one file per proto package in use (dependencies first): the messages' package, then the packages of the services"""
+    files = {}
+
+    def file_for(pkg):
+        if pkg not in files:
+            tail = pkg[len(PKG):].strip(".").split(".") if pkg != PKG else []
+            name = "/".join(["acme", "lib", "v1"] + tail + [(tail[-1] if tail else "lib") + ".proto"])
+            f = apigen.File(name, pkg)
+            f.dep("google/iam/v1/iam_policy.proto", "google/iam/v1/policy.proto")
+            files[pkg] = f
+        return files[pkg]
+    mf = file_for(pkg_of(cfg, "msgs"))
+    book = mf.msg("Book"); book.field("name"); book.field("title")
+    rq = mf.msg("GetBookRequest"); rq.field("name")
+    svcs = {}
+    for s in services_of(cfg):
+        f = file_for(pkg_of(cfg, s))
+        if f is not mf:
+            f.dep(mf.name)
+        if s == "Library":
+            svcs[s] = f.service("Library")
+            svcs[s].method("GetBook", rq, book, http=("get", "/v1/{name=books/*}"))
+        else:
+            svcs[s] = f.service("Admin", host="admin.example.com")
+            svcs[s].method("PingBook", rq, book, http=("get", "/v1/{name=books/*}:ping"))
     for m in cfg.get("own", []):
         s = svcs[cfg.get("own_service", "Library")]
         s.method(m, "." + TYPES[m][0], "." + TYPES[m][1], http=("post", "/v1/{resource=own/*}:" + m[0].lower() + m[1:]), body="*")
-    return [f]
+    return list(files.values())
 
 
 def yaml_dict(cfg):
@@ -282,8 +363,15 @@ def observe(cfg):
             api, _ = genrun.build_api(req)
         except BaseException as e:  # noqa
             return {"build_error": f"{type(e).__name__}: {str(e)[:300]}"}
-        # ---- T2 observables
+        # ---- T2 observables, read off the `api` the templates of the examined service are rendered with: the API itself for a
+        # service of the API package, the sub-package's view for a service declared in a sub-package
         from google.api import annotations_pb2
+        root_api = api
+        try:
+            for seg in sub_tuple(cfg, target_of(cfg)):
+                api = api.subpackages[seg]
+        except KeyError as e:
+            return {"build_error": f"no sub-package view {e} (views: {sorted(root_api.subpackages)})"}
         obs["has"] = [bool(api.has_location_mixin), bool(api.has_iam_mixin), bool(api.has_operations_mixin)]
         obs["iam_overrides"] = bool(api._has_iam_overrides)
 
@@ -310,15 +398,15 @@ def observe(cfg):
             obs["generation_error"] = list(err)
             return obs
         root = genrun.materialise(res)
-        svc = api.services[f"{PKG}.Library"]
-        loc = rpc.py_locations(api, svc)
+        svc = api.services[f"{pkg_of(cfg, target_of(cfg))}.{target_of(cfg)}"]
+        loc = rpc.py_locations(root_api, svc)
         codec = rpc.Codec(files)
         grpc_calls, rest_calls = [], []
         script, script_retry = {}, {}
         for m in ALL_METHODS:
             out_t = TYPES[m][1]
             reply = codec.encode_b64(out_t, RESPONSES[out_t])
-            for path in [f"/{API_OF[m]}/{m}"] + [f"/{PKG}.{s}/{m}" for s in ("Library", "Admin")]:
+            for path in [f"/{API_OF[m]}/{m}"] + [f"/{pkg_of(cfg, s)}.{s}/{m}" for s in ("Library", "Admin")]:
                 script[path] = [{"replies": [reply]}]
                 script_retry[path] = [{"code": "UNAVAILABLE", "tag": "fail-once"}, {"replies": [reply]}]
         retry = {"exceptions": ["ServiceUnavailable"], "initial": 0.001, "maximum": 0.002, "multiplier": 1.0, "deadline": 30.0}
@@ -420,6 +508,24 @@ def iam_drop_key(cfg):
     return "iam-override-drops-all:overriding-rpc-has-rule" if ruled else "iam-override:api-rpc-without-rule-drops-mixins"
 
 
+def outside_view(cfg):
+    """IAM-named RPCs that the API defines in a service which the examined service's sub-package view does NOT contain (the view
+    of a service declared in sub-package V holds the services of V and below; the view of a service of the API package holds all)"""
+    v = sub_tuple(cfg, target_of(cfg))
+    if not cfg.get("own") or sub_tuple(cfg, cfg.get("own_service", "Library"))[:len(v)] == v:
+        return set()
+    return set(cfg["own"])
+
+
+def extra_key(cfg, m, default):
+    """signature of "an IAM mixin is exposed although the API defines a same-named RPC": the open defect at HEAD needs the defining
+    service to lie OUTSIDE the sub-package view of the examined service (then `_has_iam_overrides`, evaluated on the view, does not
+    see it); an exposed mixin whose same-named RPC is defined inside the view, or any other extra RPC, keeps the general key"""
+    if m in outside_view(cfg) and IAM in cfg["apis"] and effective_rule(cfg, m) is not None and not cfg["add_iam"]:
+        return "iam-yield-per-subpackage-view:rpc-of-service-outside-view"
+    return default
+
+
 def expected_exposed(cfg, m):
     """the statement: listed AND has a rule AND (for IAM) not a same-named RPC of the API itself"""
     a = API_OF[m]
@@ -500,12 +606,14 @@ def model_yaml(cfg):
 
 
 def model_api(cfg):
+    """every service of the API with the sub-package of its declaring file, and the sub-package of the examined service (the
+    model derives the view the service's templates are rendered with)"""
     svcs = {"Library": ["GetBook"]}
-    if cfg.get("own_service") == "Admin" and cfg.get("own"):
+    if has_second(cfg):
         svcs["Admin"] = ["PingBook"]
     for m in cfg.get("own", []):
         svcs[cfg.get("own_service", "Library")].append(m)
-    return {"services": list(svcs.values())}
+    return {"services": [{"sub": sub_tuple(cfg, s), "methods": ms} for s, ms in svcs.items()], "view": sub_tuple(cfg, target_of(cfg))}
 
 
 def model_req(jf):
@@ -515,17 +623,26 @@ def model_req(jf):
 def sig(cfg):
     """distinct-configuration signature"""
     rs = sorted((ru["selector"], ru["verb"], bool(ru["body"]), ru["pattern"] or "", len(ru["additional"])) for ru in cfg["rules"])
-    return [sorted(set(cfg["apis"]) & {OPS, IAM, LOC}), rs, cfg["transport"], cfg["add_iam"], sorted(cfg["own"]), cfg["own_service"]]
+    return [sorted(set(cfg["apis"]) & {OPS, IAM, LOC}), rs, cfg["transport"], cfg["add_iam"], sorted(cfg["own"]), cfg["own_service"],
+            cfg.get("layout", "flat"), sorted(cfg_subs(cfg).items()), target_of(cfg)]
 
 
 def judge(ctx, cfg, obs, label=""):
     payload = {"cfg": cfg}
     listed = sorted(set(cfg["apis"]) & {OPS, IAM, LOC})
-    ctx.case({"listed": listed, "n_rules": len(cfg["rules"]), "transport": cfg["transport"], "add_iam": cfg["add_iam"], "own": cfg["own"]},
+    ctx.case({"listed": listed, "n_rules": len(cfg["rules"]), "transport": cfg["transport"], "add_iam": cfg["add_iam"], "own": cfg["own"],
+              "layout": cfg.get("layout", "flat"), "packages": cfg_subs(cfg), "examined_service": target_of(cfg)},
              distinct_key=sig(cfg))
     ctx.count("listed_apis", "+".join(a.split(".")[-1] for a in listed) or "none")
     ctx.count("transport", cfg["transport"]); ctx.count("add_iam", cfg["add_iam"]); ctx.count("own_iam_rpcs", len(cfg["own"]))
     ctx.count("rules_with_additional_bindings", sum(1 for ru in cfg["rules"] if ru["additional"]))
+    tgt, subs = target_of(cfg), cfg_subs(cfg)
+    ctx.count("layout", cfg.get("layout", "flat") + (":nested" if any("." in v for v in subs.values()) else ""))
+    if cfg.get("layout", "flat") != "flat":
+        ctx.count("examined_service", ("sub-package" if subs[tgt] else "api-package") + ":messages-in-" + ("sub-package" if subs["msgs"] else "api-package")
+                  + (":own-iam-rpc-in-" + ("its-own-service" if cfg["own_service"] == tgt else
+                                           ("a-service-of-its-view" if sub_tuple(cfg, cfg["own_service"])[:len(sub_tuple(cfg, tgt))] == sub_tuple(cfg, tgt)
+                                            else "a-service-outside-its-view")) if cfg["own"] else ""))
     if "build_error" in obs:
         ctx.fail("schema-build-crash", f"API.build raised {obs['build_error']}", payload)
         return
@@ -571,7 +688,7 @@ def judge(ctx, cfg, obs, label=""):
             else:
                 ctx.fail("selection:missing", f"{m} is listed and has a rule but is not selected", dict(payload, method=m))
         if got and not want:
-            ctx.fail("selection:extra", f"{m} is selected although " + ("its API is not listed" if API_OF[m] not in cfg["apis"] else "it has no rule / is defined by the API itself"),
+            ctx.fail(extra_key(cfg, m, "selection:extra"), f"{m} is selected although " + ("its API is not listed" if API_OF[m] not in cfg["apis"] else "it has no rule / is defined by the API itself"),
                      dict(payload, method=m))
         if got:
             v = obs["methods"][m]
@@ -598,7 +715,7 @@ def judge(ctx, cfg, obs, label=""):
         return
     # ------------------------------------------------ T3: presence
     tr = cfg["transport"].split("+")
-    own_here = set(cfg["own"]) if cfg["own_service"] == "Library" else set()
+    own_here = set(cfg["own"]) if cfg["own_service"] == tgt else set()
     kinds = [("sync", "dir_sync", "exposed_sync")] + ([("async", "dir_async", "exposed_async")] if "grpc" in tr else [])
     for kind, key, mkey in kinds:
         names = set(obs.get(key, {}).get("names", []))
@@ -620,7 +737,7 @@ def judge(ctx, cfg, obs, label=""):
                 else:
                     ctx.fail("presence:missing", f"{kind} client lacks {snake(m)}", dict(payload, method=m, client=kind))
             if m in present and not want:
-                ctx.fail("presence:extra", f"{kind} client exposes {snake(m)} although it is not configured", dict(payload, method=m, client=kind))
+                ctx.fail(extra_key(cfg, m, "presence:extra"), f"{kind} client exposes {snake(m)} although it is not configured", dict(payload, method=m, client=kind))
     # ------------------------------------------------ T3: transports (stubs present, wrapped-method tables)
     for lab in ("grpc", "grpc_asyncio", "rest"):
         if lab.split("_")[0] not in tr:
@@ -647,7 +764,7 @@ def judge(ctx, cfg, obs, label=""):
             if want and m not in have and not (API_OF[m] == IAM and own_all(cfg)):
                 ctx.fail("transport:missing-stub", f"{lab} transport has no {snake(m)} although the RPC is configured", dict(payload, method=m, client=lab))
             if m in have and not (want or (cfg["add_iam"] and m in IAM_METHODS)):
-                ctx.fail("transport:extra-stub", f"{lab} transport carries {snake(m)} although the RPC is not configured", dict(payload, method=m, client=lab))
+                ctx.fail(extra_key(cfg, m, "transport:extra-stub"), f"{lab} transport carries {snake(m)} although the RPC is not configured", dict(payload, method=m, client=lab))
             if m in wrapped:
                 e = wr["wrapped"][snake(m)]
                 if e.get("timeout") is not None or e.get("retry") is not None:
@@ -709,12 +826,12 @@ def judge(ctx, cfg, obs, label=""):
                         ctx.disagree(f"T3:c17.grpc.{kind}.routing", f"{m}: model field {f} vs header {hdr}", p2)
             # ---- oracle
             if m in own_here and not legacy:
-                if got.get("path") != f"/{PKG}.Library/{m}":
+                if got.get("path") != f"/{pkg_of(cfg, tgt)}.{tgt}/{m}":
                     ctx.fail("own-iam-rpc-shadowed", f"{kind} {snake(m)} is defined by the API itself but the call went to {got}", p2)
                 continue
             if not want:
                 if got["outcome"] != "absent":
-                    ctx.fail("grpc:exposed-not-configured", f"{kind} {snake(m)} is callable although not configured: {got}", p2)
+                    ctx.fail(extra_key(cfg, m, "grpc:exposed-not-configured"), f"{kind} {snake(m)} is callable although not configured: {got}", p2)
                 continue
             if got["outcome"] == "absent":
                 continue                                  # reported under presence
@@ -793,7 +910,7 @@ def judge(ctx, cfg, obs, label=""):
             # ---- oracle
             if not want:
                 if got["outcome"] != "not-generated":
-                    ctx.fail("rest:exposed-not-configured", f"rest {snake(m)} is callable although not configured: {got}", p2)
+                    ctx.fail(extra_key(cfg, m, "rest:exposed-not-configured"), f"rest {snake(m)} is callable although not configured: {got}", p2)
                 continue
             if got["outcome"] == "not-generated":
                 continue                                  # reported under presence
@@ -990,15 +1107,25 @@ def matrix(r, thorough):
         cfgs.append(gen_cfg(r, listed=[IAM], transport="grpc", add_iam=True, own=[], iam_rules=list(IAM_METHODS)))
         cfgs.append(gen_cfg(r, listed=[IAM, OPS], transport="grpc+rest", add_iam=True, own=[], iam_rules=["GetIamPolicy"]))
         cfgs.append(gen_cfg(r, listed=[IAM, LOC], transport="grpc+rest", add_iam=True, own=[], iam_rules=[]))
+    # proto sub-packages x IAM RPCs defined by the API itself: the defining service inside / outside the examined service's view
+    for k, (own_svc, tgt) in enumerate([("Library", "Admin"), ("Admin", "Library"), ("Admin", "Admin"), ("Library", "Library")] * (3 if thorough else 1)):
+        own, ir = OWN_VS_RULES[k % len(OWN_VS_RULES)]
+        c = gen_cfg(r, listed=[IAM] + ([LOC] if k % 2 else []), transport=["grpc+rest", "grpc", "rest"][k % 3], add_iam=False, own=own,
+                    iam_rules=sorted(set(ir) | set(own[:1])), layout="split" if k % 4 != 3 else "allsub")
+        c.update(own_service=own_svc, target=tgt, second=True)
+        cfgs.append(c)
     return cfgs
 
 
 def run(ctx):
     ctx.rule = ("service YAMLs: every subset of the three mixin APIs (plus near-miss names, duplicates) x per-RPC rule subsets (verb, URI "
                 "template from a pattern pool, body none/*/field, 0..2 additional bindings, duplicate and bogus selectors, rules for unlisted APIs) "
-                "x transports {grpc, rest, grpc+rest} x add-iam-methods x IAM RPCs defined by the API itself (in the client's or another service); "
+                "x transports {grpc, rest, grpc+rest} x add-iam-methods x IAM RPCs defined by the API itself (in the client's or another service) "
+                "x file layout (45 % of the generated APIs use a proto sub-package acme.lib.v1.<sub>, one or two levels: all services in one "
+                "sub-package with the messages in the API package / one service in the API package and one in a sub-package / the services in "
+                "the API package and their messages in a sub-package; the examined client is the API-package or the sub-package service); "
                 "per configuration: all 10 mixin RPCs are called on the sync, asyncio and REST clients with generated requests; distinct by "
-                "(listed set, rule set, transport, option, API-defined RPCs); non-trivial = every configuration")
+                "(listed set, rule set, transport, option, API-defined RPCs, layout, examined service); non-trivial = every configuration")
     workers = int(os.environ.get("VERIF_WORKERS", "6"))
     check_tables(ctx)
     check_transcode(ctx, ctx.rng("transcode"), ctx.n(150, 4000))
@@ -1007,6 +1134,7 @@ def run(ctx):
     cfgs += matrix(r, not ctx.quick)
     cfgs += [gen_cfg(r) for _ in range(ctx.n(16, 800))]
     cfgs += [gen_cfg(r, mixed=True, listed=[IAM, OPS]) for _ in range(ctx.n(2, 24))]
+    cfgs += [gen_cfg(r, layout=["allsub", "split", "msgsub"][k % 3]) for k in range(ctx.n(9, 150))]     # proto sub-packages, every run
     cfgs += [gen_cfg(r, t3=False) for _ in range(ctx.n(40, 1500))]      # selection functions only (incl. custom / unset patterns)
     t2 = [c for c in cfgs if not c.get("t3", True)]
     t3 = [c for c in cfgs if c.get("t3", True)]
@@ -1039,7 +1167,10 @@ def replay(ctx, payload):
 
 CLAIM = dict(
     text='Lean 4 proof that the model of API.mixin_api_methods selects an RPC iff its API is listed under `apis`, a rule names it, and (IAM) the API '
-         'defines no IAM RPC that has a rule (iff-characterisation; last rule wins; nothing when unlisted; IAM yields to same-named RPCs), that the '
+         'defines no IAM RPC that has a rule (iff-characterisation; last rule wins; nothing when unlisted; IAM yields to same-named RPCs) — where '
+         '"the API" is the sub-package view the service\'s templates are rendered with (FullApi.seenBy: every service for a client of the API package, '
+         'the services of its own sub-package for a client declared in a proto sub-package; client_mixin_exposed_iff, with the counterexample '
+         'iam_yield_stops_at_view_counterexample) —, that the '
          'client templates expose exactly the selected RPCs on sync and asyncio clients alike, that every stub uses the canonical '
          '/google.<...>/<Method> path, canonical request type and name/resource routing field (table bridged to MIXINS_MAP), that REST calls use a '
          'binding of the selected YAML rule (verb, path, query, body), and that add-iam-methods defines the three IAM RPCs on both clients; with '
